@@ -6,6 +6,8 @@
 (* REAL interpreter / the real cmd/zygo binary in a throw-away directory   *)
 (* with canaries (harness/cmd/zv/fam_sandbox.go):                          *)
 (*   [id, kind |-> "probe" | "prog" | "control", cfg, names, route,        *)
+(*    pre, shadow (what the script bound itself first), hist (process      *)
+(*    history: "" sandbox first | "after" an unsandboxed interpreter),     *)
 (*    inotify, evs |-> << [shape, out, events |-> <<observed events>>] >>] *)
 (* The oracle is the property itself, independent of any table: in a       *)
 (* sandboxed configuration the observed event set of EVERY probe is empty. *)
@@ -51,7 +53,7 @@ Evs == Case.evs
 IsControl == Case.cfg = "full"
 
 TInit == /\ ci \in 1..Len(Cases) /\ pos = 1 /\ verdict = "run" /\ dev = 0
-         /\ cfg = 1 /\ nm = 1 /\ route = <<>> /\ world = {}
+         /\ cfg = 1 /\ nm = 1 /\ route = <<>> /\ world = {} /\ defs = {}
 
 TStep ==
     /\ verdict = "run" /\ pos <= Len(Evs)
